@@ -698,7 +698,7 @@ Proof.
   destruct (find_param_rule_in _ _ _ Ef) as [Hin Hname]. destruct (stratified_param_rule p Hin) as [H1 H2]. rewrite Hname in H1.
   match goal with |- okM _ _ _ (if ?c then _ else _) => destruct c end; [apply ok_failM|].
   apply ok_bind.
-  - apply ok_mapM_in. intros each Hin'. apply (ok_arg each h QResolved); [eapply wf_lvs_in; eassumption|].
+  - apply ok_mapM_in. intros each Hin'. apply (ok_arg each h QLiteral); [eapply wf_lvs_in; eassumption|].
     pose proof (sumf_in (wt_lv wv wr) params each Hin'). lia.
   - intros resolved. apply ok_with_frame; [exact I|]. apply Hrule; [exact H2|lia].
 Qed.
